@@ -5,6 +5,8 @@ rows = []
 for f in sorted(glob.glob("/verif/seeded/*/meta.json")):
     m = json.load(open(f))
     sid = os.path.basename(os.path.dirname(f))
+    if sid.startswith("benign-"):
+        continue  # tools/benign_table.py
     classes = [l.strip().replace("class: ", "") for l in m.get("check_lines", []) if l.strip().startswith("class:")]
     ok = m.get("suite_passes_with_change") and m.get("demo_fails_with_change") and m.get("demo_passes_without_change")
     rows.append((sid, m["property"], (m.get("breaks") or "")[:150].replace("|", "/"), "yes" if ok else "NO", "**caught**" if m.get("detected_by_check") else "missed", "; ".join(classes)[:110].replace("|", "/"), m.get("note", "")))
